@@ -4,7 +4,7 @@ from . import alphabets, e1, env, ref
 T = alphabets.T
 
 SPEC = {
-    'A': ('container', 'inf L', [('water', '10 mL'), ('nacl', '2 mmol')]),
+    'A': ('container', 'inf L', [('water', '10 mL'), ('nacl', '2 mmol'), ('lipase', '1 U')]),
     'B': ('container', '20 mL', []),
     'P': ('plate', '500 uL', 2, 2),
 }
@@ -138,12 +138,22 @@ def bake(pp, vidx, program, layout=None):
         starts = {s: n for n, s, e in (layout or [])}
         ends = {e: n for n, s, e in (layout or []) if e is not None}
         out['phase'] = 'add'
+        refused = any(n.endswith('!') for n, _, _ in (layout or []))
         for i, act in enumerate(program):
             if i in ends:
                 recipe.end_stage(ends[i])
             if i in starts:
                 recipe.start_stage(starts[i])
             add_step(pp, subs, world, handles, recipe, act)
+            if refused:
+                # stage calls that must be refused, in the middle of the program: they must not disturb anything
+                for call, arg in ((recipe.start_stage, starts.get(0, 'zz')), (recipe.end_stage, 'never-started'),
+                                  (recipe.start_stage, 'all')):
+                    try:
+                        call(arg)
+                        raise env.InternalError(f"stage call {call.__name__}({arg!r}) was expected to be refused")
+                    except ValueError:
+                        pass
         if len(program) in ends:
             recipe.end_stage(ends[len(program)])
         # steps have no effect before bake: originals unchanged, placeholders empty
@@ -222,6 +232,8 @@ def layouts(n):
                 out.append((f'one-stage-{i}-{j}', [('r', i, j)]))
     if n >= 2:
         out.append(('whole-open', [('w', 0, None)]))
+        # the same two stages with refused stage calls after every step (names ending in '!' switch them on)
+        out.append(('two-stages-refused-calls', [('a!', 0, 1), ('b!', 1, n)]))
     return out
 
 
@@ -231,3 +243,52 @@ def amount(obj, sub):
     if e1.is_plate(obj):
         return float(sum(w.contents.get(sub, 0.0) for w in obj.wells.flatten()))
     return obj.contents.get(sub, 0.0)
+
+
+# ---- enumeration of all successfully baking programs (shared by C09 / C15 / C19) ---------------------------------------
+_E = {}
+
+
+def _children(prog_idx):
+    pp, vidx, voc = _E['pp'], _E['vidx'], _E['voc']
+    program = [voc[i] for i in prog_idx]
+    out = []
+    for ai, act in enumerate(voc):
+        if enabled(program, act):
+            b = bake(pp, vidx, program + [act])
+            out.append((ai, b['ok']))
+    return out
+
+
+def successful_programs(pp, vidx, depth, voc=None):
+    """All programs of 1..depth steps whose bake succeeds (extensions of failing prefixes pruned), in BFS order."""
+    from . import par
+    voc = voc or vocabulary()
+    _E.update(pp=pp, vidx=vidx, voc=voc)
+    frontier, allp, failing = [()], [], 0
+    for level in range(depth):
+        res = par.pmap(_children, frontier, chunk=1 if len(frontier) < 2000 else None)
+        nxt = []
+        for p, out in zip(frontier, res):
+            for ai, ok in out:
+                if ok:
+                    nxt.append(p + (ai,))
+                else:
+                    failing += 1
+        allp += nxt
+        frontier = nxt
+    return voc, allp, failing
+
+
+def prefix_states(pp, vidx, program):
+    """state_i = every object just before step i (i = 0..n), from prefix bakes only (never from step.frm/to).
+    Objects not yet declared are the pristine ones; objects not yet created are absent."""
+    names = expected_names(program)
+    states = []
+    for i in range(len(program) + 1):
+        b = bake(pp, vidx, program[:i])
+        if not b['ok']:
+            raise env.InternalError(f"prefix of a successful program failed to bake: {b['exc']!r}")
+        _, w = world_after(pp, vidx, b['results'], [n for n in names if n in SPEC])
+        states.append(w)
+    return states
